@@ -37,13 +37,27 @@ import (
 // those states are bounded by the deadline proxy.go keeps on the client
 // connection (Proxy.SetTimeout): "returns within a bounded time" then holds
 // with that bound. The oracle therefore first sleeps past the configured
-// timeout (a lower bound, sound under load) and only then applies the
-// quiescence window, which is longer than the timeout, so that a deadline
-// re-armed by the handler loop also expires inside it.
+// timeout, then past the deadline the handler loop re-arms once (lower
+// bounds, sound under load), and only then applies the quiescence window.
 
+// ProxyTimeout is the Proxy.SetTimeout of the first attempt of a via-proxy cell. When the state
+// cannot be established (under heavy oversubscription the proxy's own deadline can expire while the
+// harness is still establishing it), the cell is retried with the timeout doubled (6 s, 12 s, 24 s):
+// the value is per session, and the oracle's waits follow it.
 const (
 	ProxyTimeout = 6 * time.Second
 )
+
+// ProxyTimeoutFor returns the timeout of the given attempt (0-based).
+func ProxyTimeoutFor(attempt int) time.Duration {
+	if attempt < 0 {
+		attempt = 0
+	}
+	if attempt > 4 {
+		attempt = 4
+	}
+	return ProxyTimeout << uint(attempt)
+}
 
 var (
 	ProxyStates = []string{"proxy-silent-before-preface", "proxy-idle", "proxy-client-stalled-late-frame"}
@@ -76,10 +90,11 @@ func handlerGoroutines(exclude map[string]bool) []vh.G {
 }
 
 type proxySession struct {
-	rng    *rand.Rand
-	cell   Cell
-	res    *Result
-	budget *Budget
+	rng     *rand.Rand
+	cell    Cell
+	res     *Result
+	budget  *Budget
+	timeout time.Duration // Proxy.SetTimeout of this session
 
 	base    map[string]bool
 	p       *martian.Proxy
@@ -135,7 +150,7 @@ func (s *proxySession) start() bool {
 	mc.SetH2Config(&h2.Config{AllowedHostsFilter: func(string) bool { return true }, RootCAs: pk.Pool})
 	s.p = martian.NewProxy()
 	s.p.SetMITM(mc)
-	s.p.SetTimeout(ProxyTimeout)
+	s.p.SetTimeout(s.timeout)
 	if s.pl, err = net.Listen("tcp", "127.0.0.1:0"); err != nil {
 		return s.fail("listen: %v", err)
 	}
@@ -177,7 +192,7 @@ func (s *proxySession) start() bool {
 	if s.cconn, err = d.Dial("tcp", s.pl.Addr().String()); err != nil {
 		return s.fail("dial proxy: %v", err)
 	}
-	s.t0 = time.Now() // the handler loop set its deadline no later than now + ProxyTimeout
+	s.t0 = time.Now() // the handler loop set its deadline no later than now + s.timeout
 	target := s.ul.Addr().String()
 	fmt.Fprintf(s.cconn, "CONNECT %s HTTP/1.1\r\nHost: %s\r\n\r\n", target, target)
 	br := bufio.NewReader(s.cconn)
@@ -385,10 +400,17 @@ func (s *proxySession) violate(sig, what string, w map[string]interface{}) {
 func (s *proxySession) oracle() {
 	ev := s.cell.Event
 	// lower bound: past the deadline proxy.go set on the client connection for this handler iteration
-	if d := time.Until(s.t0.Add(ProxyTimeout + 500*time.Millisecond)); d > 0 {
+	if d := time.Until(s.t0.Add(s.timeout + 500*time.Millisecond)); d > 0 {
 		time.Sleep(d)
 	}
 	gone := func() bool { return len(handlerGoroutines(s.base)) == 0 }
+	// When the h2 session has been ended by that deadline, the handler loop re-arms it once more
+	// (another s.timeout) before it gives up on the connection. Sampling for quiescence only starts
+	// after that second deadline has passed as well, whatever the session's timeout is; the wait ends
+	// early only when the handler has already ended.
+	for limit := s.t0.Add(2*s.timeout + time.Second); time.Now().Before(limit) && !gone(); {
+		time.Sleep(20 * time.Millisecond)
+	}
 	sigNo := "C10:no-return:via-proxy:" + ev
 	out, spin := s.budget.await(gone, s.activity, s.base, func(sp string) string {
 		if sp != "" {
@@ -405,8 +427,8 @@ func (s *proxySession) oracle() {
 		if spin != "" {
 			sig = "C10:no-return:spinning:" + spinFuncs(spin)
 		}
-		s.violate(sig, fmt.Sprintf("through martian.Proxy (timeout %v): the connection handler has not ended after %s in state %s, although the configured timeout has passed; every goroutine of the session is parked and no byte moves",
-			ProxyTimeout, ev, s.cell.State),
+		s.violate(sig, fmt.Sprintf("through martian.Proxy (timeout %v): the connection handler has not ended after %s in state %s, although twice the configured timeout has passed; every goroutine of the session is parked and no byte moves",
+			s.timeout, ev, s.cell.State),
 			map[string]interface{}{"handler_goroutines": gStrings(handlerGoroutines(s.base)), "session_goroutines": gStrings(relayGoroutines(s.base))})
 		return
 	}
@@ -489,10 +511,11 @@ func (s *proxySession) teardown() {
 }
 
 // RunProxyCell executes one cell of the via-proxy family.
-func RunProxyCell(c Cell, rng *rand.Rand, budget *Budget) *Result {
+func RunProxyCell(c Cell, rng *rand.Rand, budget *Budget, attempt int) *Result {
 	t0 := time.Now()
-	res := &Result{Params: map[string]interface{}{"proxy_timeout": ProxyTimeout.String()}}
-	s := &proxySession{rng: rng, cell: c, res: res, budget: budget}
+	timeout := ProxyTimeoutFor(attempt)
+	res := &Result{Params: map[string]interface{}{"proxy_timeout": timeout.String(), "attempt": attempt + 1}}
+	s := &proxySession{rng: rng, cell: c, res: res, budget: budget, timeout: timeout}
 	defer func() {
 		s.teardown()
 		res.WallMS = time.Since(t0).Milliseconds()
